@@ -36,6 +36,8 @@ func C04(c *Ctx) {
 	r.Rule("C04-k", "writeExprCode, per kind: every Expression child is visited, the code writer of a code kind is called, a label is registered in the enclosing scope before the operand's scope opens - all unconditionally")
 	r.Rule("C04-l", "the emitted file is exactly what was written: every place of package main that opens a file for writing uses os.Create, or os.OpenFile with os.O_TRUNC and without os.O_APPEND (a file overwritten in place keeps the tail of a longer previous output, which is not Go)")
 	c04OutputTruncated(c)
+	r.Rule("C04-n", "a code block receives the labels of its scope: operands that the runtime evaluates in one variable frame - the two operands of a recovery operator, the items of a sequence - are visited by writeExprCode within one pushArgsSet/popArgsSet bracket, so a block in one operand gets the labels of the other as parameters (C02-d under this property)")
+	builderOperandScopes(c, "C04-n")
 	r.Rule("C04-m", "keys the builder emits per list element are distinct: a loop that writes one `key: value` entry of a map literal (or one `case key:`) per element ranges over the key set of a Go map or skips elements it has already seen; a list taken from the grammar as written (the labels of a recovery operator) may repeat an element, and two equal constant keys do not compile")
 	if g := c.G(); g != nil {
 		c04DistinctKeys(c, g)
